@@ -191,6 +191,27 @@ Theorem C05_redrill_count_refuted :
 Proof. exact redrill_count_refuted. Qed.
 Print Assumptions C05_redrill_count_refuted.
 
+(* WellBores.Calculate called again on the same object (district heating): the series are those of a fresh call ... *)
+Theorem C05_second_call_series : forall prev P T maxdd,
+  rd_P (redrill_call prev P T maxdd) = rd_P (redrill P T maxdd) /\
+  rd_T (redrill_call prev P T maxdd) = rd_T (redrill P T maxdd) /\
+  rd_index (redrill_call prev P T maxdd) = rd_index (redrill P T maxdd).
+Proof. exact redrill_call_series. Qed.
+Print Assumptions C05_second_call_series.
+
+(* ... and so is the count when the object is fresh or the second call redrills ... *)
+Theorem C05_second_call_count_partial : forall prev P T maxdd, prev = 0%nat \/ index_of P maxdd <> 0%nat ->
+  rd_count (redrill_call prev P T maxdd) = rd_count (redrill P T maxdd).
+Proof. exact redrill_call_count_partial. Qed.
+Print Assumptions C05_second_call_count_partial.
+
+(* ... otherwise the first call's count is reported for a profile that never restarts *)
+Theorem C05_second_call_stale_count_refuted :
+  exists prev P T maxdd, 0 <= hd 0 P /\ 0 < maxdd <= 1 /\ index_of P maxdd = 0%nat /\
+    rd_P (redrill_call prev P T maxdd) = P /\ rd_count (redrill_call prev P T maxdd) <> 0%nat.
+Proof. exact redrill_call_stale_count_refuted. Qed.
+Print Assumptions C05_second_call_stale_count_refuted.
+
 (* ================================ models 4 and 3: bounded by bottom-hole temperature, never rising inside a cycle ============ *)
 
 (* every lifetime L, step count n, wellbore-drop series, drawdown rate and limit; hypothesis: injection temperature
